@@ -62,13 +62,25 @@ def resolve_fault(fault, written):
     return f
 
 
+_LAST_MTIME = {}
+
+
 def _write_file(path, data):
+    """Write a simulated file.  Two different contents of one path never share a
+    modification time, whatever the granularity of the kernel's timestamps (a flipped byte
+    keeps size and inode; only the mtime tells the flipped file from the restored one, and a
+    correct cache validated by stat must be able to rely on it)."""
     os.makedirs(os.path.dirname(path), exist_ok=True)
     fd = os.open(path, os.O_WRONLY | os.O_CREAT | os.O_TRUNC, 0o644)
     try:
         os.write(fd, data)
     finally:
         os.close(fd)
+    st = os.stat(path)
+    new = max(st.st_mtime_ns, _LAST_MTIME.get(path, 0) + 1000)
+    if new != st.st_mtime_ns:
+        os.utime(path, ns=(st.st_atime_ns, new))
+    _LAST_MTIME[path] = new
 
 
 def reset_root(root):
